@@ -123,8 +123,8 @@ def iterations(ex, p, it_filter=None):
             if it_filter is not None and not it_filter(e):
                 continue
             el = e[3][3].get("Some")
-            if el is not None and el[0] == "tuple" and len(el[1]) == 2:      # enumerate(): (k, element)
-                el = el[1][1]
+            if el is not None and el[0] == "tuple" and len(el[1]) == 2 and "Enumerate" in (e[5] if len(e) > 5 else ""):
+                el = el[1][1]                                               # enumerate(): (k, element)
             out.append((len(out), el, e[3][2], i))
     return out
 
